@@ -27,6 +27,7 @@ var Positions = []string{
 	"if",      // if true B end
 	"call",    // r = f()  where f's body is B (with a defer)
 	"callc",   // r = c.() where the closure's body is B
+	"tcall",   // return f()  where f's body is B: a call in tail position (frame re-use must be invisible)
 }
 
 // exits
@@ -36,6 +37,7 @@ type Exit struct {
 }
 
 type spineGen struct {
+	inTry int // number of enclosing do-expressions in the current function
 	id    int // print id counter
 	vars  int
 	defs  map[string]M
@@ -60,6 +62,21 @@ func (g *spineGen) build(chain []string, ex Exit, loopsInFn []string) L {
 	rest := chain[1:]
 	pre := Print(g.pid())
 	var mid L
+	saved := g.inTry
+	defer func() { g.inTry = saved }()
+	switch pos {
+	case "try_cf", "try_f", "try_c", "catch_f", "catch", "fin", "fin_thr":
+		g.inTry++
+	case "call", "callc":
+		g.inTry = 0
+	case "tcall":
+		if g.inTry > 0 {
+			// inside a do-expression the compiler's choice between a real tail call and an ordinary
+			// call depends on the finally bookkeeping; keep the family to unambiguous tail positions
+			pos = "call"
+		}
+		g.inTry = 0
+	}
 	switch pos {
 	case "loop", "while", "until", "forin", "fornum":
 		label := g.v("l")
@@ -103,6 +120,12 @@ func (g *spineGen) build(chain []string, ex Exit, loopsInFn []string) L {
 		g.defs[fn] = Def(nil, "Int", false, body)
 		r := g.v("r")
 		mid = B(Let(r, "Int", Int(0)), Call(r, fn), Print(Var(r)))
+	case "tcall":
+		g.nfun++
+		fn := fmt.Sprintf("f%d", g.nfun)
+		body := B(Defer(Pr(g.id+1000, Int(0))), Print(g.pid()), g.build(rest, ex, nil), Print(g.pid()), Return(Int(7)))
+		g.defs[fn] = Def(nil, "Int", false, body)
+		mid = B(TCall(fn))
 	case "callc":
 		cn := g.v("k")
 		body := B(Print(g.pid()), g.build(rest, ex, nil), Print(g.pid()), Return(Int(8)))
@@ -150,7 +173,7 @@ func exitsFor(chain []string) []Exit {
 		switch p {
 		case "loop", "while", "until", "forin", "fornum":
 			loops++
-		case "call", "callc":
+		case "call", "callc", "tcall":
 			loops = 0
 		}
 	}
@@ -199,7 +222,7 @@ func Tags(chain []string, ex Exit) []string {
 		for i, p := range chain {
 			if isLoop(p) {
 				loops = append(loops, i)
-			} else if p == "call" || p == "callc" {
+			} else if p == "call" || p == "callc" || p == "tcall" {
 				loops = nil
 			}
 		}
@@ -218,7 +241,7 @@ func Tags(chain []string, ex Exit) []string {
 				landing = i
 			}
 		}
-		crossing = []string{"call", "callc", "catch", "catch_f", "fin", "fin_thr"}
+		crossing = []string{"call", "callc", "tcall", "catch", "catch_f", "fin", "fin_thr"}
 	}
 	if landing >= 0 {
 		thrownFin, crossed := false, false
